@@ -114,6 +114,31 @@ def run(db, res, rule, text=None):
                 res.holds(rule, key, 'dropped on purpose: ' + REVIEWED[(n, g)], loc)
             else:
                 res.violated(rule, key, '%s drops the status of %s() (%d other call sites act on it): an error, a STOP or a "need more data" reported there is lost and the caller carries on as if the step had succeeded' % (n, g, good), loc)
+    # twin clause: the request-side and response-side versions of one function are used the same way
+    def twin(g):
+        for a_, b_ in (('request', 'response'), ('_req_', '_res_'), ('REQ_', 'RES_'), ('_in_', '_out_')):
+            if a_ in g and g.replace(a_, b_) in sites:
+                return g.replace(a_, b_)
+            if b_ in g and g.replace(b_, a_) in sites:
+                return g.replace(b_, a_)
+        return None
+    ntwin = 0
+    for g, ss in sorted(sites.items()):
+        if sum(1 for s in ss if s[2]) >= 3:
+            continue        # decided above
+        t = twin(g)
+        if t is None or not all(s[2] for s in sites[t]):
+            continue
+        for n, loc, ok in ss:
+            ntwin += 1
+            key = '%s:%s()' % (n, g)
+            if ok:
+                res.holds(rule, key, 'the status is acted upon, as at every call of the twin %s()' % t, loc)
+            elif (n, g) in REVIEWED:
+                res.holds(rule, key, 'dropped on purpose: ' + REVIEWED[(n, g)], loc)
+            else:
+                res.violated(rule, key, '%s drops the status of %s() while every call of its twin %s() acts on it: an ERROR or STOP that a callback returns there is lost on this side only, and the state function reports success without having changed state' % (n, g, t), loc)
+    res.floor(rule, 'call sites decided by the twin clause', ntwin, 10)
     res.analysed[rule] = dict(status_functions=len(stf), call_sites_of_majority_checked_functions=nsites, reviewed_drops=ndrop)
     res.floor(rule, 'status functions', len(stf), 100)
     res.floor(rule, 'call sites of functions whose status is acted upon at >= 3 sites', nsites, 100)
